@@ -75,7 +75,7 @@ func newEngine(repo string, config string, patterns []string) (*Engine, error) {
 		frames: map[*ssa.Function][]frameEntry{}, frameBusy: map[*ssa.Function]bool{}, constGlob: map[*ssa.Global]*globalInfo{}, config: config}
 	env := append(os.Environ(), "GOFLAGS=-mod=mod", "GOPROXY=off", "GOSUMDB=off", "GOTOOLCHAIN=local")
 	env = append(env, lc.Env...)
-	cfg := &packages.Config{Mode: packages.LoadAllSyntax, Dir: repo, Fset: e.fset, BuildFlags: []string{"-tags=" + lc.Tags}, Env: env}
+	cfg := &packages.Config{Mode: packages.LoadAllSyntax, Dir: repo, Fset: e.fset, BuildFlags: []string{"-tags=" + lc.Tags}, Env: env, Overlay: instantiationOverlay(repo)}
 	pkgs, err := packages.Load(cfg, patterns...)
 	if err != nil {
 		return nil, err
@@ -670,4 +670,56 @@ func (e *Engine) globalFacts(vc *VC, g *ssa.Global, ref string) {
 		}
 		vc.note("initial contents of constant global %s taken from package init (%d cells)", g.Name(), len(gi.cells))
 	}
+}
+
+// instantiationOverlay: contract files may contain `//@ instantiate F[T1], G[T2]` lines; each produces a
+// virtual file in that package referencing the instances, so that go/ssa builds (and govc verifies) the
+// instantiated bodies of generic functions instead of the type-parametric origin.
+func instantiationOverlay(repo string) map[string][]byte {
+	out := map[string][]byte{}
+	filepath.Walk(repo, func(path string, info os.FileInfo, err error) error {
+		if err != nil {
+			return nil
+		}
+		if info.IsDir() {
+			if strings.HasPrefix(info.Name(), ".") && path != repo {
+				return filepath.SkipDir
+			}
+			return nil
+		}
+		name := info.Name()
+		if !strings.HasPrefix(name, "zz_contracts") || !strings.HasSuffix(name, "_verif.go") {
+			return nil
+		}
+		data, err := os.ReadFile(path)
+		if err != nil {
+			return nil
+		}
+		var insts []string
+		pkgName := ""
+		for _, ln := range strings.Split(string(data), "\n") {
+			t := strings.TrimSpace(ln)
+			if strings.HasPrefix(t, "package ") && pkgName == "" {
+				pkgName = strings.TrimSpace(t[8:])
+			}
+			if strings.HasPrefix(t, "//@ instantiate ") {
+				for _, x := range splitTop(strings.TrimSpace(t[len("//@ instantiate "):])) {
+					if x != "" {
+						insts = append(insts, x)
+					}
+				}
+			}
+		}
+		if len(insts) == 0 || pkgName == "" {
+			return nil
+		}
+		var b strings.Builder
+		b.WriteString("//go:build verif\n\npackage " + pkgName + "\n\n")
+		for _, x := range insts {
+			b.WriteString("var _ = " + x + "\n")
+		}
+		out[filepath.Join(filepath.Dir(path), "zz_instances_"+strings.TrimSuffix(name, ".go")+".go")] = []byte(b.String())
+		return nil
+	})
+	return out
 }
